@@ -28,6 +28,21 @@ Two printers read it:
 
 import builtins
 
+CM = "\x03"  # inside a condition / except spec / with expression: what follows is a trailing '# comment' of that control line
+
+
+def _cc(text):
+    """'cond\x03note' -> 'cond: # note' ; 'cond' -> 'cond:'"""
+    if CM in text:
+        code, note = text.split(CM, 1)
+        return code + ": # " + note
+    return text + ":"
+
+
+def code_part(text):
+    return text.split(CM, 1)[0]
+
+
 IND = ["", "  ", "\t", "       "]
 MARGIN = ["", "    ", "        ", "\t"]
 
@@ -92,7 +107,7 @@ def mako_source(prog, sp):
             out.append(nl)
         elif k == "If":
             for i, (cond, b) in enumerate(s[1]):
-                cline(("if " if i == 0 else "elif ") + cond + ":")
+                cline(("if " if i == 0 else "elif ") + _cc(cond))
                 body(b)
             if s[2] is not None:
                 cline("else:")
@@ -106,18 +121,18 @@ def mako_source(prog, sp):
                 body(s[4])
             cline("endfor")
         elif k == "While":
-            cline("while %s:" % s[1])
+            cline("while " + _cc(s[1]))
             body(s[2])
             cline("endwhile")
         elif k == "Try":
             cline("try:")
             body(s[1])
             for spec, b in s[2]:
-                cline("except %s:" % spec if spec else "except:")
+                cline("except " + _cc(spec) if spec else "except:")
                 body(b)
             cline("endtry")
         elif k == "With":
-            cline("with %s:" % s[1])
+            cline("with " + _cc(s[1]))
             body(s[2])
             cline("endwith")
         elif k == "Py":
@@ -228,7 +243,7 @@ def ref_source(prog, enable_loop, nl="\n"):
             emit(ind, "__o(%r)" % nl)
         elif k == "If":
             for i, (cond, b) in enumerate(s[1]):
-                emit(ind, ("if " if i == 0 else "elif ") + cond + ":")
+                emit(ind, ("if " if i == 0 else "elif ") + _cc(cond))
                 body(b, ind + 1)
             if s[2] is not None:
                 emit(ind, "else:")
@@ -250,16 +265,16 @@ def ref_source(prog, enable_loop, nl="\n"):
                 emit(ind, "finally:")
                 emit(ind + 1, "loop = __R.exit()")
         elif k == "While":
-            emit(ind, "while %s:" % s[1])
+            emit(ind, "while " + _cc(s[1]))
             body(s[2], ind + 1)
         elif k == "Try":
             emit(ind, "try:")
             body(s[1], ind + 1)
             for spec, b in s[2]:
-                emit(ind, "except %s:" % spec if spec else "except:")
+                emit(ind, "except " + _cc(spec) if spec else "except:")
                 body(b, ind + 1)
         elif k == "With":
-            emit(ind, "with %s:" % s[1])
+            emit(ind, "with " + _cc(s[1]))
             body(s[2], ind + 1)
         elif k == "Py":
             for l in s[1]:
